@@ -59,3 +59,8 @@ Inductive consumer := UWhere | UHaving | UGroupKey | UAggArg | UWindowArg | UPla
 Definition sql_admits_window (u : consumer) : bool :=
   match u with UPlainExpr | UOrderBy | UProjection => true | _ => false end.
 Definition all_consumers : list consumer := [UWhere; UHaving; UGroupKey; UAggArg; UWindowArg; UPlainExpr; UOrderBy; UJoinOn; UProjection].
+
+(* SPECIFICATION: a column expression commutes with `take` (can be computed before LIMIT/OFFSET instead of after)
+   iff it is row-local; a window function or an aggregate sees other rows, so it must be computed on the taken rows *)
+Definition row_local (c : cx) : bool := match c with CPlain | CNonGroup => true | CWindowed | CAggregation => false end.
+Definition all_cx : list cx := [CPlain; CNonGroup; CWindowed; CAggregation].
